@@ -13,6 +13,9 @@ EXEMPT: dict[tuple[str, str], str] = {
     ("R20-CONVERSE", "DistributedSendRefHolder.send.data"):
         "documented in ListOfUsersCollector's docstring: the send-ref holder is "
         "not a user of send.data (no data flows from it into the holder)",
+    ("R20-CONVERSE", "UsersCollector:DistributedSendRefHolder.send.data"):
+        "same as for the list collector (documented there): the send-ref holder is not a "
+        "user of send.data; the data reaches no node through the holder",
     ("R13-CHILDREN", "UsersCollector/Call.function"): _NS,
     ("R13-CHILDREN", "ListOfUsersCollector/Call.function"): _NS,
     ("R13-CHILDREN-OVR", "DependencyMapper/Call.function"): _NS,
